@@ -12,6 +12,9 @@ def _q(f):
 
 
 def _guards(fnode, node):
+    """(test text, in-body?) of the enclosing ifs, plus the canonical facts of sa.ir.guard_facts as (fact, True): inverted
+    branches and early exits are seen as the positive guards they are equivalent to"""
+    from sa.ir import guard_facts
     par = {}
     for n in ast.walk(fnode):
         for ch in ast.iter_child_nodes(n):
@@ -23,6 +26,11 @@ def _guards(fnode, node):
         if isinstance(p, ast.If):
             out.append((norm(p.test), any(n is x for x in p.body)))
         n = p
+    have = {t for t, pos in out if pos}
+    for f in guard_facts(fnode, node, with_raise=False):
+        if f not in have:
+            out.append((f, True))
+            have.add(f)
     return out
 
 
